@@ -41,6 +41,10 @@ def scenarios(tier):
         'S8_concurrent_hash_reads': dict(t0=[['w', 'i', 'A']],
                                          threads=[[sb('r1', [q('readh', 'i')])], [sb('r2', [q('readh', 'i')], args=(2,))]]),
         'S9_threads_inside_a_subbuild': dict(threads=[[dict(sb('par'), par=[[bf('d/a')], [bf('d/b', 'ra')]])], [bf('e/c')]]),
+        'S12_two_rebuilds_then_rollback': dict(prep=[bf('d/a', tag='old'), bf('e/b', tag='old')],
+                                               threads=[[bf('d/a')], [bf('e/b')]], raise_after=True),
+        'S13_overwrite_foreign_then_rollback': dict(t0=[['w', 'a', 'A'], ['w', 'i', 'A']],
+                                                    threads=[[bf('a')], [bf('i')]], raise_after=True),
         'S10_failure_beside_query_of_other_dir': dict(t0=[['mkdir', 'u']], threads=[[bf('d/a', 'ra')], [q('is_dir', 'u'), bf('u/b')]]),
     }
     if tier != 'quick':
